@@ -318,6 +318,9 @@ pub fn expect_binary_value(class: &str, prop: &str, v: &Variant) -> Option<(Stri
             }
             let nv = match (v, e.wire_ty) {
                 (Variant::Color3(c), Some(VariantType::Color3uint8)) => Variant::Color3uint8(quantise(c)),
+                // a narrower numeric stored for a wider declared type is widened exactly
+                (Variant::Int32(i), _) if e.ty == Some(VariantType::Int64) => Variant::Int64(*i as i64),
+                (Variant::Float32(f), _) if e.ty == Some(VariantType::Float64) => Variant::Float64(*f as f64),
                 (Variant::CFrame(c), _) => Variant::CFrame(snap_cf(c)),
                 (Variant::OptionalCFrame(Some(c)), _) => Variant::OptionalCFrame(Some(snap_cf(c))),
                 (other, _) => other.clone(),
